@@ -39,6 +39,21 @@ Judge(e) ==
          ELSE IF Explained(e.fmt, e.rules, e.val, e.ok) THEN "known:" \o Flag(e.fmt, e.rules, e.val, e.ok)
          ELSE IF Explained(e.fmt, e.rules2, e.val, e.ok2) THEN "known:" \o Flag(e.fmt, e.rules2, e.val, e.ok2)
          ELSE "bad"
+    [] e.ev = "Ident" ->
+         \* runs: one per schema of the identity instance, all on the same wrapped document
+         LET ss == IdentSchemas(e.kind, e.ctx, e.a, IF e.kind = "prelude" /\ e.a.n \in PreludeBase THEN PreludeBaseDef(e.a.n) ELSE e.b)
+             oks == [i \in 1..Len(e.runs) |-> e.runs[i].ok]
+             w == WrapV(e.ctx, e.val)
+         IN IF Len(ss) # Len(e.runs) \/ \E i \in 1..Len(ss) : ss[i] # e.runs[i].rules THEN "unrelated"
+            ELSE IF IdentHolds(e.kind, oks, e.a, e.b, e.val) THEN "ok"
+            ELSE IF \E i \in 1..Len(ss) : Explained(e.fmt, ss[i], w, oks[i])
+                 THEN "known:" \o Flag(e.fmt, ss[CHOOSE i \in 1..Len(ss) : Explained(e.fmt, ss[i], w, oks[i])], w,
+                                        oks[CHOOSE i \in 1..Len(ss) : Explained(e.fmt, ss[i], w, oks[i])])
+            ELSE IF e.fmt = "json" /\ \E i \in 1..Len(ss) : Expected("json", {}, ss[i], w) = "E" THEN "either"
+            ELSE "bad"
+    [] e.ev = "Occ" ->
+         IF OccBounds(e.sp1) # OccBounds(e.sp2) THEN "unrelated"
+         ELSE IF e.ok = e.ok2 THEN "ok" ELSE "bad"
     [] OTHER -> "unrelated"
 Init == l = 1
 Next == /\ l <= Len(Rec)
